@@ -25,6 +25,7 @@ HOSTS = {
     'spl-kv': 'input {{...{{type: v4, name: "n"}}}}', 'spl-sh': 'input {{...{{type, name}}}}', 'spl-str': 'input {{...{{"type": v4}}}}', 'spl-comp': 'input {{...{{["type"]: v4}}}}',
     'spl-nested': 'input {{...{{...s1}}}}', 'spl-get': 'input {{...{{get type() {{ return v4 }}}}}}', 'spl-static': 'input {{...{{type: "checkbox"}}}}', 'spl-other': 'input {{...{{id: "x"}}}}',
     'spl-two': 'input {{...{{id: "x"}}}} {{...{{type}}}}', 'spc': 'input {{...f1()}}',
+    'cust': 'my-el', 'custcb': 'my-el type="checkbox"', 'custrd': 'my-el type="radio"', 'custdyn': 'my-el type={{v4}}', 'custsp': 'my-el {{...s1}}', 'custtext': 'my-el type="text"', 'divcb': 'div type="checkbox"',
     'typeafter': 'input', 'select': 'select', 'textarea': 'textarea', 'div': 'div', 'Foo': 'Foo', 'C1': 'C1', 'mem': 'v1.Foo',
 }
 OTHERS = {'': '', 'id': 'id="a"', 'cls': 'class={{v3}}', 'sp': '{{...s1}}', 'upd': 'onUpdate:modelValue={{f1}}'}
@@ -50,7 +51,8 @@ def make_skeleton(spec):
         src = PRELUDE + ('const type = v4, name = "n";\n' if spec['host'].startswith('spl') else '') + 'const _0 = <%s %s/>;\n' % (host, attrs)
         sid = 'c05#%s|%s|%s|%s|%s' % (spec['host'], spec['form'], spec['target'], spec.get('other', ''), pos)
     opts = {'merge_props': 'sym', 'optimize': 'sym'}
-    return Skeleton(sid.replace('{', '(').replace('}', ')'), src, [], opts, meta={'family': 'c05/' + ('models' if 'models' in spec else spec['host'])})
+    return Skeleton(sid.replace('{', '(').replace('}', ')'), src, [], opts, patterns=['opaque'] if spec['host'].startswith('cust') else None,
+                    meta={'family': 'c05/' + ('models' if 'models' in spec else spec['host'])})
 
 
 # ------------------------------------------------------------------ oracle
@@ -106,6 +108,12 @@ def accepted_model_directives(tagname, tinfo, has_spread):
         if has_spread:
             return {'vModelDynamic'}          # the type may come from the spread
         return {'vModelText', 'vModelDynamic'}
+    # other elements (custom elements above all): Vue's compiler and the Babel plugin treat them like <input> - a written
+    # `type` (or a spread that may carry one) governs; without one the text directive or the dynamic one works
+    if tinfo[0] == 'dynamic' or (tinfo[0] == 'none' and has_spread):
+        return {'vModelDynamic'}
+    if tinfo[0] == 'static' and tinfo[1] in ('checkbox', 'radio'):
+        return {{'checkbox': 'vModelCheckbox', 'radio': 'vModelRadio'}[tinfo[1]], 'vModelDynamic'}
     return {'vModelText', 'vModelDynamic'}
 
 
@@ -378,6 +386,7 @@ def main(argv):
     rep.bounds = {'hosts': sorted(HOSTS), 'forms': sorted(FORMS), 'targets': sorted(TARGETS), 'co-occurring': sorted(OTHERS), 'v-models_lists': '<=2 (quick) / <=3 entries',
                   'options': 'mergeProps, optimize symbolic'}
     rep.assumptions = ['vModelDynamic is accepted wherever a static model directive would be (it dispatches on the runtime type)',
+                       'elements other than input / select / textarea (custom elements above all) follow the input rule when a `type` is written or a spread may carry one, as in Vue\'s own compiler and the Babel plugin; without one vModelText or vModelDynamic',
                        'suffix modifiers next to an array form with argument/list, and an argument given both as v-model:arg and in the array: not fixed by the statement']
     res = common.run_jobs('mirsym.checks.elements', 'run_family_job', js)
     raw = []
